@@ -146,12 +146,30 @@ static int c_many, c_nwait, c_nconsumers_left, c_maxwait;
 /* lost-signal accounting: "sure" waiters are inside an untimed wait or a timed wait whose deadline is out of reach; a
  * signal issued by the holder of CM0 while such a waiter is not yet promised a wake-up must wake one (broadcast: all) */
 static int c_nsure, c_required, c_succ_sure;
-static void c_note_signal_under_mutex(int broadcast)
+static int c_sure_kind[MAX_ACTORS]; /* 0 not waiting, 1 inside an untimed wait, 2 inside a timed wait with deadline c_dl */
+static double c_dl[MAX_ACTORS];
+static unsigned c_sure_set(void)
 {
+    /* waiters that are certainly still queued: untimed ones, and timed ones whose deadline the virtual clock has not
+     * reached (the controlled scheduler may let any pending timeout fire early by jumping the clock to its deadline) */
+    unsigned m = 0;
+    double now = vs_now();
+    for (int a = 0; a < MAX_ACTORS; a++)
+        if (c_sure_kind[a] == 1 || (c_sure_kind[a] == 2 && now < c_dl[a]))
+            m |= 1u << a;
+    return m;
+}
+static unsigned c_sig_before;
+static void c_note_signal_under_mutex_begin(void) { c_sig_before = c_sure_set(); }
+static void c_note_signal_under_mutex_end(int broadcast)
+{
+    /* present before the call and not expired after it: present during the whole call */
+    unsigned m = c_sig_before & c_sure_set();
+    int n = __builtin_popcount(m);
     int outstanding = c_required - c_succ_sure;
     if (outstanding < 0)
         outstanding = 0;
-    int avail = c_nsure - outstanding;
+    int avail = n - outstanding;
     if (avail > 0)
         c_required += broadcast ? avail : 1;
 }
@@ -197,9 +215,9 @@ static void cond_body(actor *a)
             c_holder--;
             if (sc_rnd(2)) { /* signal while holding the mutex ... */
                 if (sc_rnd(3))
-                    { c_note_signal_under_mutex(0); ABT_OK(CCALL("signal", "", (c_sigseq++, ABT_cond_signal(C0)))); c_sigdone++; }
+                    { c_note_signal_under_mutex_begin(); ABT_OK(CCALL("signal", "", (c_sigseq++, ABT_cond_signal(C0)))); c_sigdone++; c_note_signal_under_mutex_end(0); }
                 else
-                    { c_note_signal_under_mutex(1); ABT_OK(CCALL("broadcast", "", (c_sigseq++, ABT_cond_broadcast(C0)))); c_sigdone++; }
+                    { c_note_signal_under_mutex_begin(); ABT_OK(CCALL("broadcast", "", (c_sigseq++, ABT_cond_broadcast(C0)))); c_sigdone++; c_note_signal_under_mutex_end(1); }
                 cm_unlock(CM0, 0);
             } else { /* ... or after releasing it */
                 cm_unlock(CM0, 0);
@@ -235,6 +253,7 @@ static void cond_body(actor *a)
             if (!timed) {
                 sure = 1;
                 c_nsure++;
+                c_sure_kind[a->id] = 1;
                 rc = CCALL("wait", "CM0", ABT_cond_wait(C0, CM0));
                 VSA_CHECK(rc == ABT_SUCCESS, "cond wait returned %d", rc);
             } else {
@@ -255,6 +274,10 @@ static void cond_body(actor *a)
                 while (ts.tv_nsec >= 1000000000L)
                     ts.tv_nsec -= 1000000000L, ts.tv_sec++;
                 double dl = (double)ts.tv_sec + 1.0e-9 * (double)ts.tv_nsec;
+                if (sure) {
+                    c_dl[a->id] = dl;
+                    c_sure_kind[a->id] = 2;
+                }
                 char extra[64];
                 snprintf(extra, sizeof extra, "CM0 %.17g", dl);
                 rc = CCALL("timedwait", extra, ABT_cond_timedwait(C0, CM0, &ts));
@@ -268,6 +291,7 @@ static void cond_body(actor *a)
             c_nwait--;
             if (sure) {
                 c_nsure--;
+                c_sure_kind[a->id] = 0;
                 if (rc == ABT_SUCCESS)
                     c_succ_sure++;
             }
